@@ -125,9 +125,18 @@ WellFormed(s) ==
   /\ s.kind = "topn" => s.top # None /\ s.lo = [l |-> None, f |-> None] /\ s.w.join = "AND"
   /\ s.kind = "property" => s.time.op = "none" /\ s.lo.f = None
 
+RawGrammar == [kind : Kinds, top : Tops, time : TimeForms, w : Wheres({"AND", "OR"}), order : {"none", "DESC"}, lo : LimOffs]
+
 Grammar ==   \* (a filtered set of records: TLC enumerates it lazily, it is never built as a whole)
-  { s \in [kind : Kinds, top : Tops, time : TimeForms, w : Wheres({"AND", "OR"}), order : {"none", "DESC"}, lo : LimOffs] :
-      WellFormed(s) }
+  { s \in RawGrammar : WellFormed(s) }
+
+\* the well-formed statement nearest to an arbitrary combination of clauses (used to draw random statements)
+Norm(r) ==
+  [r EXCEPT !.top = IF r.kind \notin {"measure", "topn"} THEN None ELSE IF r.kind = "topn" /\ r.top = None THEN PH ELSE r.top,
+            !.time = IF r.kind = "property" THEN [op |-> "none", args |-> <<>>] ELSE r.time,
+            !.w = IF r.kind = "topn" THEN [r.w EXCEPT !.join = "AND"] ELSE r.w,
+            !.lo = IF r.kind = "topn" THEN [l |-> None, f |-> None]
+                   ELSE IF r.kind = "property" THEN [l |-> r.lo.l, f |-> None] ELSE r.lo]
 
 -----------------------------------------------------------------------------
 \* ---- placeholders in textual order (binder.collect, preparer.walkGrammar) ----
